@@ -114,6 +114,16 @@ def mk_lifetime(case, dims):
 
 
 def _mk_lifetime(case, dims):
+    """with case["late_rule"] the model is built with another inflow instant and another quadrature order, and the case's own
+    settings are assigned afterwards (before any table is read): the tables are those of the settings in force when they are computed"""
+    if case.get("late_rule"):
+        lt = case["lifetime"]
+        want_at, want_n = lt.get("inflow_at", "middle"), lt.get("n_pts", 1)
+        other = dict(lt, inflow_at="end" if want_at != "end" else "start", n_pts=2 if want_n != 2 else 1)
+        lm = _mk_lifetime(dict(case, late_rule=False, lifetime=other), dims)
+        lm.inflow_at = want_at
+        lm.n_pts_per_interval = want_n
+        return lm
     import flodym as fd
     lt = case["lifetime"]
     kw = dict(dims=dims, time_letter=case.get("time_letter", "t"), inflow_at=lt.get("inflow_at", "middle"), n_pts_per_interval=lt.get("n_pts", 1))
